@@ -606,6 +606,35 @@ def dispatch(r):
                     r.violation("denial:illegal-sequence", w, f"denial response with extension sent {types}")
             elif types != ["websocket.close"]:
                 r.violation("denial:illegal-sequence", w, f"denial without extension/response sent {types}")
+    # a denial response that emits something other than start/body (trailers, zero-copy send, an informational event, an
+    # unknown type): nothing but websocket.http.response.start / .body may reach the server, the rest is refused
+    class Odd(A.Response):
+        def __init__(self, extra, where):
+            super().__init__(403)
+            self.extra, self.where = extra, where
+
+        async def __call__(self, scope, receive, send):
+            if self.where == "first":
+                await send(dict(self.extra))
+            await send({"type": "http.response.start", "status": 403, "headers": [(b"content-length", b"2")]})
+            if self.where == "middle":
+                await send(dict(self.extra))
+            await send({"type": "http.response.body", "body": b"no", "more_body": self.where == "after-more"})
+            if self.where in ("last", "after-more"):
+                await send(dict(self.extra))
+    for extra in ({"type": "http.response.trailers", "headers": []}, {"type": "http.response.zerocopysend", "file": 0}, {"type": "http.response.push", "path": "/x", "headers": []},
+                  {"type": "http.response.debug", "info": {}}, {"type": "websocket.accept"}, {"type": "http.response.start2"}, {"type": "http.request"}):
+        for where in ("first", "middle", "last", "after-more"):
+            scope = {"type": "websocket", "path": "/", "headers": [], "query_string": b"", "extensions": {"websocket.http.response": {}}}
+            sent, exc = drive(A.WebsocketDenialResponse(Odd(extra, where)), scope)
+            r.count("evaluations")
+            r.count("distinct_nontrivial")
+            w = {"dispatch": "denial-odd-event", "ext": True, "response": f"{extra['type']} {where}"}
+            bad = [m["type"] for m in sent if m["type"] not in ("websocket.http.response.start", "websocket.http.response.body")]
+            if bad:
+                r.violation("denial:illegal-event-forwarded", w, f"denial response emitting {extra['type']} ({where}): forwarded {[m['type'] for m in sent]}")
+            elif exc is None:
+                r.violation("denial:illegal-event-swallowed", w, f"denial response emitting {extra['type']} ({where}): no error raised, forwarded {[m['type'] for m in sent]}")
     # shortcut dispatch
 
     @A.request_response
